@@ -53,6 +53,11 @@ KIND_OF_TYPE = {"np.ndarray": "ndarray", "numpy.ndarray": "ndarray", "ndarray": 
                 "CameraViewPort": "CameraViewPort", "str": "str", "int": "int"}
 
 
+ABC_KINDS = {"Sequence": ["list", "tuple", "str"], "MutableSequence": ["list"], "Iterable": ["list", "tuple", "str", "ndarray"],
+             "Collection": ["list", "tuple", "str"], "Sized": ["list", "tuple", "str", "ndarray"], "Container": ["list", "tuple", "str", "ndarray"],
+             "Reversible": ["list", "tuple", "str"], "Hashable": ["tuple", "str", "int", "NoneType"]}
+
+
 class Evaluator:
     def __init__(self, prog, cls, env):
         self.prog = prog
@@ -92,6 +97,10 @@ class Evaluator:
                 kinds = []
                 for t in types:
                     k = KIND_OF_TYPE.get(norm(t))
+                    if k is None and norm(t).split(".")[-1] in ABC_KINDS:
+                        # an abstract base class of collections.abc / typing: the concrete kinds of the partition that are instances of it
+                        kinds += ABC_KINDS[norm(t).split(".")[-1]]
+                        continue
                     if k is None:
                         raise Unknown(norm(t))
                     kinds.append(k)
